@@ -134,6 +134,7 @@ type nodeOpt struct {
 	again      *nodeRun // run the SAME node value as this finished run once more (same address)
 	keep       bool     // another run of the same node follows: keep the socket directory
 	klog       bool     // log the runner's Lock / Unlock calls from the start (KL / KU tokens)
+	holdPeer   bool     // the peer starts reading only when the scenario says so (releasePeer)
 }
 
 type peer struct {
@@ -141,6 +142,7 @@ type peer struct {
 	conn   net.Conn
 	frames chan can.Frame
 	closed chan struct{}
+	hold   chan struct{} // non-nil: reading starts when it is closed
 	tx     *socketcan.Transmitter
 }
 
@@ -149,6 +151,9 @@ func (p *peer) start() {
 	p.closed = make(chan struct{})
 	p.tx = socketcan.NewTransmitter(p.conn)
 	go func() {
+		if p.hold != nil {
+			<-p.hold // the peer does not read yet: over net.Pipe the node's Write stays pending
+		}
 		rx := socketcan.NewReceiver(p.conn)
 		for rx.Receive() {
 			select {
@@ -419,6 +424,9 @@ func startNodeOpt(scen, mode string, emit func(string), opt nodeOpt) (*nodeRun, 
 		if err := r.cancelDuringConnect(); err != nil {
 			return nil, err
 		}
+	}
+	if opt.holdPeer {
+		r.peer.hold = make(chan struct{})
 	}
 	r.peer.start()
 	return r, nil
@@ -1545,6 +1553,109 @@ func wnCancelInFlight(point, trigger string, peerGone bool, mode string, emit fu
 	r.finish("none", "", "")
 }
 
+// wnPendingWrites (net.Pipe: a Write stays pending until the peer reads): the peer delays reading
+// while transmissions of two DIFFERENT messages are under way - two event requests accepted back to
+// back; a cycle tick of one message and a request for the other - and then reads: the wire carries
+// exactly one frame per accepted request / taken tick, each with the ID and the payload of ITS
+// message (the transmitters of a node must not share what they write from).
+func wnPendingWrites(kind string, emit func(string)) {
+	hbD, mcD := examplecan.Messages().DriverHeartbeat, examplecan.Messages().MotorCommand
+	hbOld, mcOld := hbD.CycleTime, mcD.CycleTime
+	hbD.CycleTime, mcD.CycleTime = 3*time.Second, 3*time.Second // = send timeouts: the pending writes must not expire
+	if kind == "tick" {
+		mcD.CycleTime = 400 * time.Millisecond
+	}
+	defer func() { hbD.CycleTime, mcD.CycleTime = hbOld, mcOld }()
+	r, err := startNodeOpt("pendingwrites"+kind, "pipe", emit, nodeOpt{holdPeer: true})
+	if err != nil {
+		emit("WN scen=pendingwrites" + kind + "-pipe check=setup ok=0 info=" + hexs(err.Error()))
+		return
+	}
+	hb, mc := r.node.Tx().DriverHeartbeat(), r.node.Tx().MotorCommand()
+	mcHook := make(chan struct{}, 16)
+	locked(r.node, func() {
+		hb.SetCommand(examplecan.DriverHeartbeat_Command(2))
+		mc.SetRawSteer(-7)
+		mc.SetRawDrive(21)
+		mc.SetBeforeTransmitHook(func(context.Context) error { mcHook <- struct{}{}; return nil })
+	})
+	wantHb := examplecan.NewDriverHeartbeat().SetCommand(examplecan.DriverHeartbeat_Command(2)).Frame()
+	wantMc := examplecan.NewMotorCommand().SetRawSteer(-7).SetRawDrive(21).Frame()
+	request := func(name string, t interface{ Transmit(context.Context) error }) bool {
+		ctx, cancel := context.WithTimeout(context.Background(), lw())
+		defer cancel()
+		errT := t.Transmit(ctx)
+		r.check("request-accepted", errT == nil, fmt.Sprintf("%s.Transmit: %v", name, errT))
+		return errT == nil
+	}
+	want := map[uint32]int{}
+	if kind == "tick" {
+		locked(r.node, func() { mc.SetCyclicTransmissionEnabled(true) })
+		select {
+		case <-mcHook: // the first tick has been taken
+			want[101]++
+		case <-r.runEnd:
+		case <-time.After(lw()):
+		}
+		time.Sleep(5 * time.Millisecond) // MotorCommand's write is pending
+		if request("DriverHeartbeat", hb) {
+			want[100]++
+		}
+	} else {
+		if request("DriverHeartbeat", hb) {
+			want[100]++
+		}
+		time.Sleep(5 * time.Millisecond) // DriverHeartbeat's write is pending
+		if request("MotorCommand", mc) {
+			want[101]++
+		}
+	}
+	time.Sleep(10 * time.Millisecond)
+	if kind == "tick" {
+		locked(r.node, func() { mc.SetCyclicTransmissionEnabled(false) })
+	}
+	close(r.peer.hold) // now the peer reads
+	var got []can.Frame
+	deadline := time.After(lw())
+collect:
+	for len(got) < want[100]+want[101] {
+		select {
+		case f := <-r.peer.frames:
+			got = append(got, f)
+		case <-r.runEnd:
+			break collect
+		case <-deadline:
+			break collect
+		}
+	}
+	time.Sleep(10 * time.Millisecond)
+	for more := true; more; {
+		select {
+		case f := <-r.peer.frames:
+			got = append(got, f)
+		default:
+			more = false
+		}
+	}
+	n := map[uint32]int{}
+	payload := true
+	var desc []string
+	for _, f := range got {
+		n[f.ID]++
+		if (f.ID == 100 && f != wantHb) || (f.ID == 101 && f != wantMc) || (f.ID != 100 && f.ID != 101) {
+			payload = false
+		}
+		desc = append(desc, f.String())
+	}
+	if kind == "tick" && n[101] > want[101] && n[101] <= want[101]+1 {
+		want[101] = n[101] // one more tick may have been due before the disable was handled
+	}
+	r.check("one-frame-per-request", n[100] == want[100] && n[101] == want[101] && len(got) == want[100]+want[101] && payload,
+		fmt.Sprintf("peer reads after both transmissions were under way: wanted %d x %s and %d x %s, wire: %v", want[100], wantHb.String(), want[101], wantMc.String(), desc))
+	r.stop()
+	r.finish("none", "", "")
+}
+
 func wholeNode(rounds int, emit0 func(string)) {
 	emit := func(s string) {
 		if strings.HasPrefix(s, "WN ") && strings.Contains(s, " ok=0 ") {
@@ -1564,6 +1675,10 @@ func wholeNode(rounds int, emit0 func(string)) {
 		}
 		wnNotEligible(mode, emit)
 		wnReEnable(mode, emit)
+		if mode == "pipe" {
+			wnPendingWrites("events", emit)
+			wnPendingWrites("tick", emit)
+		}
 		wnBusyToggles(mode, emit)
 		for k, point := range []string{"lock", "hook", "frame"} {
 			for j, trig := range []string{"event", "tick"} {
